@@ -1,3 +1,3 @@
-import sys; sys.path.insert(0,'/tmp/fixes'); from edit import rep
+import sys; sys.path.insert(0,'/verif/tools'); from edit import rep
 rep('segno/writers.py', "coordinates[colormap[consts.TYPE_QUIET_ZONE]] = [(0, 0, width // scale)]", "coordinates[colormap[consts.TYPE_QUIET_ZONE]] = [(0, 0, matrix_size[0] + 2 * border)]")
 rep('segno/writers.py', "f'v{height // scale}h-{width // scale}z\"/>'", "f'v{matrix_size[1] + 2 * border}h-{matrix_size[0] + 2 * border}z\"/>'")
